@@ -170,7 +170,12 @@ func (w *c07World) roundTrip(cf c07Cfg, sess *saml.Session) (sent *saml.Assertio
 		return sent, nil, "idp-form", err
 	}
 	acs := formRequest(f.Action, url.Values{"SAMLResponse": {f.Fields["SAMLResponse"]}, "RelayState": {f.Fields["RelayState"]}})
-	got, err = w.sp.ParseResponse(acs, []string{reqID})
+	pending := []string{reqID}
+	if cf.binding == "post" || cf.enc {
+		// other logins are pending in the same browser (two more tabs): the answered request is neither first nor last in the list
+		pending = []string{"id-pending-earlier", reqID, "id-pending-later"}
+	}
+	got, err = w.sp.ParseResponse(acs, pending)
 	if err != nil {
 		return sent, nil, "sp-parse-response", err
 	}
